@@ -4,6 +4,7 @@ import (
 	"fmt"
 	"strings"
 
+	"github.com/antchfx/xmlquery"
 	"github.com/jf-tech/omniparser/idr"
 
 	"verifharness/vh"
@@ -136,4 +137,36 @@ var rootProbeExprs = []string{
 	"//*[last()]/following::node()", "/*/*[1]/preceding::node()", "/node()/preceding-sibling::node() | /node()/following-sibling::node()",
 	"ancestor-or-self::node()/following-sibling::node()", "ancestor-or-self::node()/preceding-sibling::node()",
 	"//node()[not(following::node())]/ancestor-or-self::node()/following::node()",
+}
+
+// bareNameProbes: for nodes with element children, every local name among the children as a
+// bare-name expression from that node - what most schema xpaths look like.  A prefixed child
+// (<ext:id>) must not answer to its bare local name ("id"); an un-prefixed child does, also
+// under a default namespace.  Goes through idr.MatchAll AND idr.MatchSingle (evalExpr /
+// apiConsistency), i.e. the string API itself, not only the navigator.
+func bareNameProbes(d *docCtx, r *vh.Rng, max int) (starts []int, names []string) {
+	var cands []int
+	for k, n := range d.xnodes {
+		for c := n.FirstChild; c != nil; c = c.NextSibling {
+			if c.Type == xmlquery.ElementNode {
+				cands = append(cands, k)
+				break
+			}
+		}
+	}
+	r.Shuffle(len(cands), func(i, j int) { cands[i], cands[j] = cands[j], cands[i] })
+	for _, k := range cands {
+		seen := map[string]bool{}
+		for c := d.xnodes[k].FirstChild; c != nil; c = c.NextSibling {
+			if c.Type == xmlquery.ElementNode && !seen[c.Data] {
+				seen[c.Data] = true
+				starts = append(starts, k)
+				names = append(names, c.Data)
+			}
+		}
+		if len(starts) >= max {
+			break
+		}
+	}
+	return
 }
